@@ -483,3 +483,140 @@ Proof.
   intros t r sc ns ew dns dew mns mew et er es odns odew Ht Hr Hsc Hns Hew Hdns Hdew Hmns Hmew Hes eff_ns eff_ew.
   subst eff_ns eff_ew. rewrite construct_trs_body. destruct odns, odew; apply construct_core; assumption.
 Qed.
+
+(* ================================================================== *)
+(* Decomposition of the canonical string *)
+Lemma fullmatch_groups x mo : fullmatch trs_unpacker_regex G x = Some mo ->
+  exists a b c, x = a ++ b ++ c /\
+    group x mo 1 = Some a /\ comp_shape DIG XS ZS US NS a (group x mo 2) (group x mo 3) (group x mo 4) /\
+    group x mo 5 = Some b /\ comp_shape DIG XS ZS US EW b (group x mo 6) (group x mo 7) (group x mo 8) /\
+    ((c = [] /\ group x mo 9 = None) \/ (sec_shape DIG XS US c /\ group x mo 9 = Some c)).
+Proof.
+  intros Hfm. unfold fullmatch in Hfm. rewrite st_at_full in Hfm.
+  destruct (m trs_unpacker_regex _ _ _) as [y|] eqn:Em; [|discriminate]. injection Hfm as <-.
+  destruct (m_path _ _ _ _ _ Em) as (p & Hin & Hk). destruct (rest (fst p)) eqn:Hend; [|discriminate]. injection Hk as <-.
+  rewrite regex_shape in Hin. change G with 9 in Hin.
+  destruct (unpacker_inv DIG NS EW XS ZS US x p Hin Hend) as (a & b & c & H). exists a, b, c. exact H.
+Qed.
+
+Definition dict_of (g : nat -> option str) : trsdict :=
+  let lw := lower in
+  let '(twp, twp_num, twp_ns, twp_undef) :=
+    if nonempty (g 3) && nonempty (g 4) then
+      (match g 1 with Some v => lw v | None => MC_ERR_TWP end,
+       match g 3 with Some v => py_int v | None => None end,
+       option_map lw (g 4), false)
+    else if opt_str_eqb (g 1) MC_UNDEF_TWP then (MC_UNDEF_TWP, None, None, true)
+    else (MC_ERR_TWP, None, None, false) in
+  let '(rge, rge_num, rge_ew, rge_undef) :=
+    if nonempty (g 7) && nonempty (g 8) then
+      (match g 5 with Some v => lw v | None => MC_ERR_RGE end,
+       match g 7 with Some v => py_int v | None => None end,
+       option_map lw (g 8), false)
+    else if opt_str_eqb (g 5) MC_UNDEF_RGE then (MC_UNDEF_RGE, None, None, true)
+    else (MC_ERR_RGE, None, None, false) in
+  let '(sec, sec_num, sec_undef) :=
+    match g 9 with
+    | Some v => match py_int v with
+                | Some z => (Some v, Some z, false)
+                | None => if str_eqb v MC_UNDEF_SEC then (Some v, None, true) else (Some MC_ERR_SEC, None, false)
+                end
+    | None => (Some MC_ERR_SEC, None, false)
+    end in
+  mktrsdict (twp ++ rge ++ match sec with Some v => v | None => [78; 111; 110; 101]%N end)
+            twp twp_num twp_ns twp_undef rge rge_num rge_ew rge_undef sec sec_num sec_undef.
+
+Lemma trs_to_dict_match x mo : x <> [] -> fullmatch trs_unpacker_regex G x = Some mo ->
+  trs_to_dict (Some x) = dict_of (fun i => group x mo i).
+Proof. intros Hne Hfm. unfold trs_to_dict. destruct x as [|c0 x']; [contradiction|]. rewrite Hfm. reflexivity. Qed.
+
+Definition optZ_eqb (a : option Z) (b : Z) : bool := match a with Some z => (z =? b)%Z | None => false end.
+Definition num_ok (t : N) : bool :=
+  let w := str_of_N t in
+  (1 <=? length w) && (length w <=? 3) && forallb (fun c => in_ranges c DIG) w && optZ_eqb (py_int w) (Z.of_N t).
+Definition sec2_ok (sc : N) : bool :=
+  let c := rjust 2 48%N (str_of_N sc) in
+  (length c =? 2) && forallb (fun c => in_ranges c DIG) c && optZ_eqb (py_int c) (Z.of_N sc).
+
+Lemma num_sweep : forallb num_ok (Nrange 1000) = true. Proof. vm_compute. reflexivity. Qed.
+Lemma sec2_sweep : forallb sec2_ok (Nrange 100) = true. Proof. vm_compute. reflexivity. Qed.
+
+Lemma forallb_Forall {A} (f : A -> bool) l : forallb f l = true -> Forall (fun x => f x = true) l.
+Proof. intros H. apply Forall_forall. intros x Hx. exact (proj1 (forallb_forall f l) H x Hx). Qed.
+
+Lemma optZ_eqb_eq a b : optZ_eqb a b = true -> a = Some b.
+Proof. destruct a as [z|]; cbn; [|discriminate]. intros H. apply Z.eqb_eq in H. congruence. Qed.
+
+Lemma num_facts t : (t < 1000)%N ->
+  1 <= length (str_of_N t) <= 3 /\ Forall (inset DIG) (str_of_N t) /\ py_int (str_of_N t) = Some (Z.of_N t).
+Proof.
+  intros Ht. pose proof (forallb_In _ _ num_sweep t (Nrange_in 1000 t Ht)) as K. unfold num_ok in K. cbv zeta in K.
+  apply andb_true_iff in K. destruct K as [K K4]. apply andb_true_iff in K. destruct K as [K K3]. apply andb_true_iff in K. destruct K as [K1 K2].
+  apply Nat.leb_le in K1, K2. split; [lia|]. split; [exact (forallb_Forall _ _ K3) | exact (optZ_eqb_eq _ _ K4)].
+Qed.
+
+Lemma sec2_facts sc : (sc < 100)%N ->
+  exists d1 d2, rjust 2 48%N (str_of_N sc) = [d1; d2] /\ inset DIG d1 /\ inset DIG d2 /\ py_int [d1; d2] = Some (Z.of_N sc).
+Proof.
+  intros Hs. pose proof (forallb_In _ _ sec2_sweep sc (Nrange_in 100 sc Hs)) as K. unfold sec2_ok in K. cbv zeta in K.
+  apply andb_true_iff in K. destruct K as [K K3]. apply andb_true_iff in K. destruct K as [K1 K2]. apply Nat.eqb_eq in K1.
+  destruct (rjust 2 48%N (str_of_N sc)) as [|d1 [|d2 [|d3 l]]]; try discriminate K1.
+  cbn [forallb] in K2. apply andb_true_iff in K2. destruct K2 as [I1 K2]. apply andb_true_iff in K2. destruct K2 as [I2 _].
+  exists d1, d2. repeat split; [exact I1 | exact I2 | exact (optZ_eqb_eq _ _ K3)].
+Qed.
+
+Lemma comp_shape_cshape ds a gi gn gd : comp_shape DIG XS ZS US ds a gi gn gd -> cshape ds a.
+Proof.
+  intros [w d Ha Hl Hf Hd _ _ _|c1 c2 c3 c4 Ha I1 I2 I3 I4 _ _ _|c1 c2 c3 c4 Ha I1 I2 I3 I4 _ _ _].
+  - eapply CSh_valid; eassumption.
+  - apply XS_point in I1, I2, I3. apply ZS_point in I4. subst. apply CSh_err. reflexivity.
+  - apply US_point in I1, I2, I3. apply ZS_point in I4. subst. apply CSh_und. reflexivity.
+Qed.
+
+(* a component known to be digits + letter took the valid branch, and its inner groups are its two parts *)
+Lemma comp_shape_valid ds w d gi gn gd :
+  letters_ok ds -> 1 <= length w -> Forall (inset DIG) w -> inset ds d ->
+  comp_shape DIG XS ZS US ds (w ++ [d]) gi gn gd -> gn = Some w /\ gd = Some [d].
+Proof.
+  intros Hds Hl Hf Hd [w' d' Ha Hl' Hf' Hd' _ -> ->|c1 c2 c3 c4 Ha I1 _ _ _ _ _ _|c1 c2 c3 c4 Ha I1 _ _ _ _ _ _].
+  - destruct (digit_prefix_unique w w' d d' [] [] Hf Hf' (Hds _ Hd) (Hds _ Hd') Ha) as (-> & -> & _). auto.
+  - exfalso. destruct w as [|c w]; [cbn in Hl; lia|]. cbn in Ha. injection Ha as -> _. inversion Hf; subst.
+    destruct (dig_facts _ H1) as (_ & _ & _ & _ & _ & _ & _ & _ & K & _). unfold inset in I1. congruence.
+  - exfalso. destruct w as [|c w]; [cbn in Hl; lia|]. cbn in Ha. injection Ha as -> _. inversion Hf; subst.
+    destruct (dig_facts _ H1) as (_ & _ & _ & _ & _ & _ & _ & _ & _ & _ & K). unfold inset in I1. congruence.
+Qed.
+
+Lemma is_ns_inset c : is_ns c = true -> inset NS c /\ lower [c] = [c].
+Proof. intros H. destruct (is_ns_cases _ H) as [<-|[<-|[]]]; split; reflexivity. Qed.
+Lemma is_ew_inset c : is_ew c = true -> inset EW c /\ lower [c] = [c].
+Proof. intros H. destruct (is_ew_cases _ H) as [<-|[<-|[]]]; split; reflexivity. Qed.
+
+Theorem TRS_decompose : C12_decompose_statement.
+Proof.
+  intros t r sc ns ew Ht Hr Hsc Hns Hew.
+  destruct (num_facts t Ht) as (LA & FA & PA). destruct (num_facts r Hr) as (LB & FB & PB).
+  destruct (sec2_facts sc Hsc) as (d1 & d2 & EC & I1 & I2 & PC).
+  destruct (is_ns_inset _ Hns) as [Ins Lns]. destruct (is_ew_inset _ Hew) as [Iew Lew].
+  unfold canon_trs. rewrite EC. set (A := str_of_N t) in *. set (B := str_of_N r) in *. set (C := [d1; d2]) in *.
+  replace (A ++ [ns] ++ B ++ [ew] ++ C) with ((A ++ [ns]) ++ (B ++ [ew]) ++ C) by (rewrite <- !app_assoc; reflexivity).
+  set (x := (A ++ [ns]) ++ (B ++ [ew]) ++ C).
+  assert (Sa : cshape NS (A ++ [ns])) by (eapply CSh_valid; [reflexivity | exact LA | exact FA | exact Ins]).
+  assert (Sb : cshape EW (B ++ [ew])) by (eapply CSh_valid; [reflexivity | exact LB | exact FB | exact Iew]).
+  assert (Sc : sshape C) by (eapply SSh_dig; [reflexivity | exact I1 | exact I2]).
+  assert (Hne : x <> []) by (pose proof (cshape_nonempty _ _ Sa); unfold x; destruct (A ++ [ns]); [contradiction | discriminate]).
+  pose proof (unpacker_complete _ _ _ Sa Sb Sc) as Hm. fold x in Hm.
+  destruct (fullmatch trs_unpacker_regex G x) as [mo|] eqn:Hfm; [|contradiction]. clear Hm.
+  etransitivity; [exact (trs_to_dict_match x mo Hne Hfm)|].
+  destruct (fullmatch_groups x mo Hfm) as (a' & b' & c' & Hx & G1 & S1 & G5 & S5 & S9).
+  destruct (cshape_unique NS (A ++ [ns]) a' _ _ NS_letters Sa (comp_shape_cshape _ _ _ _ _ S1) Hx) as [<- E1].
+  destruct (cshape_unique EW (B ++ [ew]) b' _ _ EW_letters Sb (comp_shape_cshape _ _ _ _ _ S5) E1) as [<- <-].
+  destruct (comp_shape_valid NS A ns _ _ _ NS_letters ltac:(lia) FA Ins S1) as [G3 G4].
+  destruct (comp_shape_valid EW B ew _ _ _ EW_letters ltac:(lia) FB Iew S5) as [G7 G8].
+  assert (G9 : group x mo 9 = Some C) by (destruct S9 as [[K _]|[_ K]]; [discriminate K | exact K]).
+  unfold dict_of. cbv zeta. rewrite G1, G3, G4, G5, G7, G8, G9.
+  assert (NA : nonempty (@Some (list N) A) = true) by (destruct A; [cbn in LA; lia | reflexivity]).
+  assert (NB : nonempty (@Some (list N) B) = true) by (destruct B; [cbn in LB; lia | reflexivity]).
+  rewrite NA, NB. cbn [nonempty andb option_map].
+  rewrite !lower_app, (lower_digits _ FA), (lower_digits _ FB), Lns, Lew, PA, PB, PC.
+  unfold x. rewrite <- !app_assoc. reflexivity.
+Qed.
